@@ -1454,7 +1454,7 @@ func (c ipamClient) assignFromExistingBlock(ctx context.Context, config *IPAMCon
 	// Increment handle count.
 	if handleID != nil {
 		logCtx.Debug("Incrementing handle")
-		err := c.incrementHandle(ctx, *handleID, blockCIDR, num, maxAlloc)
+		err := c.incrementHandle(ctx, *handleID, blockCIDR, len(ips), maxAlloc)
 		if err != nil {
 			// If incrementHandle fails due to maxAlloc constraint, return the error so caller can handle it.
 			// The IPs allocated in the block's memory structure won't be persisted since
@@ -1475,7 +1475,7 @@ func (c ipamClient) assignFromExistingBlock(ctx context.Context, config *IPAMCon
 			logCtx.Debug("Decrementing handle since we failed to allocate IP(s)")
 			// Extend timeout for the cleanup, if needed.
 			cleanupCtx, cancel := contextForCleanup(ctx)
-			if err := c.decrementHandle(cleanupCtx, *handleID, blockCIDR, num, nil); err != nil {
+			if err := c.decrementHandle(cleanupCtx, *handleID, blockCIDR, len(ips), nil); err != nil {
 				logCtx.WithError(err).Warnf("Failed to decrement handle")
 			}
 			cancel()
